@@ -80,12 +80,22 @@ def strat(tier):
         st.tuples(st.just('list'), st.lists(_x, max_size=12)),
         st.tuples(st.just('range'), st.sampled_from(big)),
     ).map(list)
-    return st.fixed_dictionaries({
+    # scale class: a set of thousands of items with hundreds of *scattered* removals (every 2nd/3rd item), i.e. more dead
+    # intervals than the 384-interval compaction threshold while staying under the 1/8 dead-ratio threshold
+    scatter = st.tuples(st.just('remove_run'), st.integers(0, 30), st.sampled_from([2, 2, 3]), st.integers(380, 436)).map(list)
+    normal = st.fixed_dictionaries({
         'sub': st.just('iset'),
         'init': init,
         'ops': st.lists(_op(), max_size=25 if tier == 'quick' else 40),
         'repeat': st.sampled_from(REPEATS),
     })
+    scattered = st.fixed_dictionaries({
+        'sub': st.just('iset'),
+        'init': st.tuples(st.just('range'), st.sampled_from([3500, 3500, 5000])).map(list),
+        'ops': st.tuples(st.lists(_op(), max_size=3), scatter, st.lists(_op(), max_size=8)).map(lambda t: t[0] + [t[1]] + t[2]),
+        'repeat': st.just(1),
+    })
+    return st.integers(0, 15).flatmap(lambda i: scattered if i == 0 else normal)
 
 
 def _mk_operand(spec):
@@ -342,6 +352,8 @@ def run(case):
                     break
                 note_removal(m.index(x), len(m))
                 m.remove(x)
+                if len(getattr(s, 'dead_indices', ())) >= 384:
+                    out.label('384_dead_intervals_reached')
         elif name == 'remove_tail':
             if not m:
                 continue
